@@ -1091,10 +1091,52 @@ def d1j_same_normalisation(chk: Check) -> None:
              and c.args}
     loopv = [src(n.target) for n in walk_local(te.node)
              if isinstance(n, ast.For)]
+    comps = [c for c in walk_local(te.node) if isinstance(c, ast.ListComp)]
+    if not loopv and len(comps) == 1 and len(comps[0].generators) == 1 \
+            and not comps[0].generators[0].ifs:
+        # the same mapping written as a comprehension
+        loopv = [src(comps[0].generators[0].target)]
+        elt = comps[0].elt
+        forms = {src(elt.body), src(elt.orelse)} \
+            if isinstance(elt, ast.IfExp) else {src(elt)}
     if len(loopv) != 1 or forms != {loopv[0], loopv[0] + ".value"}:
         raise AnalysisError("Nodes.tagless_elements no longer maps an "
                             "element to itself / its .value: {}".format(
                                 sorted(forms)))
+    # ... and what it hands out is a list of its own on every path: the
+    # UNIQUE policies take it once as the reference snapshot of the left
+    # side and then append to the left side
+    chk.rule("C05-D1t", "Nodes.tagless_elements returns a list it built "
+             "itself on every path (never its parameter)", floor=1)
+    params = set(te.params())
+    for r in walk_local(te.node):
+        if not isinstance(r, ast.Return):
+            continue
+        v = r.value
+        fresh = isinstance(v, (ast.List, ast.ListComp)) or (
+            isinstance(v, ast.Call) and src(v.func) == "list")
+        if isinstance(v, ast.Name) and v.id not in params:
+            defs = [a.value for a in walk_local(te.node)
+                    if isinstance(a, (ast.Assign, ast.AnnAssign)) and
+                    a.value is not None and src(
+                        a.targets[0] if isinstance(a, ast.Assign)
+                        else a.target) == v.id]
+            fresh = bool(defs) and all(
+                isinstance(d, (ast.List, ast.ListComp)) or
+                (isinstance(d, ast.Call) and src(d.func) == "list")
+                for d in defs)
+        if fresh:
+            chk.ok("C05-D1t", te, r, "tagless_elements: `{}`".format(
+                src(r)[:50]), "a list built in the function")
+        else:
+            chk.fail("C05-D1t", te, r, "tagless_elements: `{}`".format(
+                src(r)[:50]),
+                "the caller's own list (or something not built here) is "
+                "handed back: _merge_simple_lists keeps it as the snapshot "
+                "of the left side while appending to that very list, so a "
+                "right-hand value that occurs twice is appended once "
+                "(arrays=unique is defined against the left side as it "
+                "was)")
     n = 0
     for q in ("Merger._merge_simple_lists", "Merger._merge_sets"):
         fi = prog.func(q)
